@@ -10,6 +10,7 @@ import (
 	"math/big"
 	"math/rand"
 
+	"github.com/aclements/go-moremath/mathx"
 	"github.com/aclements/go-moremath/stats"
 	"gonum.org/v1/gonum/mathext"
 )
@@ -111,6 +112,13 @@ func ttestReplay(in io.Reader, raw bool, args []string) (*Summary, error) {
 					if err != nil || res == nil {
 						sum.viol(what+"-error", c, "map %d alt %v: unexpected error %v", mi, alt, err)
 						continue
+					}
+					// calls of OTHER features in between, chosen to share one argument with what the test evaluates (the same
+					// first beta parameter DoF/2 with another second one): the repeated test gives the same bits
+					mathx.BetaInc(0.7, res.DoF/2, 2)
+					_ = stats.BinomialDist{N: int(res.DoF)/2 + 1, P: 0.3}.CDF(1)
+					if res2, err2 := call(alt); err2 != nil || res2 == nil || math.Float64bits(res2.P) != math.Float64bits(res.P) || math.Float64bits(res2.T) != math.Float64bits(res.T) {
+						sum.viol(what+"-history", c, "map %d alt %v: the same call gives P=%v T=%v, and after unrelated BetaInc / BinomialDist calls %+v (%v)", mi, alt, res.P, res.T, res2, err2)
 					}
 					if res.N1 != n1 || res.N2 != n2 || res.AltHypothesis != alt {
 						sum.viol(what+"-N", c, "N1,N2,alt = %d,%d,%v want %d,%d,%v", res.N1, res.N2, res.AltHypothesis, n1, n2, alt)
